@@ -34,3 +34,5 @@ for n in names:
     meta["detected"] = any(x["exit"] == 1 for x in results.values())
     json.dump(meta, open(mp, "w"), indent=1)
     print(n, {c: ("HARD" if x["found_failing_input"] else "soft" if x["exit"] == 1 else "MISS") for c, x in results.items()}, flush=True)
+# leave ChfVerif/Gen as the unchanged tree says (a sweep regenerates the tables from each changed tree)
+subprocess.run(["./setup.sh"], cwd="/verif", stdout=subprocess.DEVNULL, stderr=subprocess.DEVNULL, env=env)
